@@ -13,6 +13,7 @@ import (
 	"strings"
 	"sync"
 	"sync/atomic"
+	"time"
 
 	"github.com/ThreeDotsLabs/watermill/message"
 
@@ -46,7 +47,23 @@ func chanState(c <-chan struct{}) byte {
 	}
 }
 
-func apply(m *message.Message, op byte) (res byte) {
+// apply runs one call under a watchdog: a call that does not return within the bound is reported as 'B' (blocked).
+func apply(m *message.Message, op byte) byte {
+	done := make(chan byte, 1)
+	go func() { done <- applyRaw(m, op) }()
+	select {
+	case r := <-done:
+		return r
+	case <-time.After(blockBound):
+		return 'B'
+	}
+}
+
+const blockBound = 3 * time.Second
+
+var blockedSeen int
+
+func applyRaw(m *message.Message, op byte) (res byte) {
 	defer func() {
 		if r := recover(); r != nil {
 			res = 'P'
@@ -75,7 +92,12 @@ func runSeq(kind, ops string) string {
 	m := build(kind)
 	var sb strings.Builder
 	for i := 0; i < len(ops); i++ {
-		sb.WriteByte(apply(m, ops[i]))
+		r := apply(m, ops[i])
+		sb.WriteByte(r)
+		if r == 'B' {
+			blockedSeen++
+			break // the message is wedged: later calls would only wait for the bound again
+		}
 	}
 	return sb.String()
 }
@@ -88,10 +110,11 @@ func enumSeq(out *wh.Out, maxLen int) {
 	for _, k := range kinds {
 		var rec func(prefix []byte)
 		rec = func(prefix []byte) {
-			out.Case("seq "+k+" "+dash(string(prefix)), dash(runSeq(k, string(prefix))))
+			obs := runSeq(k, string(prefix))
+			out.Case("seq "+k+" "+dash(string(prefix)), dash(obs))
 			out.Count("seq.len" + wh.Itoa(len(prefix)))
-			if len(prefix) == maxLen {
-				return
+			if len(prefix) == maxLen || strings.Contains(obs, "B") || blockedSeen >= 3 {
+				return // extensions of a blocking prefix block as well
 			}
 			for i := 0; i < len(alphabet); i++ {
 				rec(append(append([]byte{}, prefix...), alphabet[i]))
@@ -210,7 +233,7 @@ func main() {
 	}
 	enumSeq(out, maxLen)
 	rng := wh.NewRng(a.Seed)
-	for i := 0; i < nHist; i++ {
+	for i := 0; i < nHist && blockedSeen == 0; i++ {
 		kind := kinds[rng.Intn(3)]
 		g := 2 + rng.Intn(15)
 		if i%4 == 0 {
